@@ -113,6 +113,14 @@ CHECKS["C03"] = dict(
     technique="fault family defined in the TLA+ wire spec and enumerated by TLC per behaviour, plus seeded random frames; every frame decoded in an isolated, resource-limited worker",
 )
 
+CHECKS["C14"] = dict(
+    category="model_checking",
+    text="spec/Collective.tla steps through every (login message family, older protocol version) pair and checks on the definitions that every informative field of the older version has a place in the latest version (the design-level condition for Lower_N o Lift_N = id); the behaviours of spec/WowmWire.tla for every login message of protocol versions 2, 3, 5, 6, 7, 8 (all control paths, 4-8 value profiles; ~1,400 quick) are executed against the real crate: version N's own reader -> from_version_N -> to_version_N must give back the value and its bytes, and version_8's read_protocol / write_protocol must yield exactly the lifted value and the original bytes.",
+    design_ref="DESIGN.md section 5 C14",
+    note="Trusted: the generated dispatch (tools/gen_dispatch.py, names from the front-end's object table), the wire model's canonical encodings, TLC. Sync API only (tokio / async-std variants of the protocol API share the conversions; transports are C06's subject). CMD_SURVEY_RESULT has no collective type.",
+    technique="TLA+ structural embedding check with TLC plus spec->impl replay of every wire-model behaviour through lift / lower and the protocol-parameterised API",
+)
+
 NOT_YET = {}
 
 def main():
